@@ -136,6 +136,10 @@ P_C15_opt == (IsSummary /\ E.transopt > 0 /\ E.ls > 0) =>
 \* the cycles the pipeline carries after the transition optimisation are the optimiser's own
 \* choice, i.e. a local optimum of it: the real optimiser re-run on that schedule finds nothing
 \* better (violation, then counter; both recomputed from the tours of the transopt snapshot)
+\* hook H4 records the cycles the optimiser returned for each type: the transopt snapshot carries exactly those
+P_C16_chosen == (E.ev = "optres" /\ E.pi > 0) =>
+   /\ {x.ty : x \in Range1(E.tr)} = NetE.types
+   /\ \A x \in Range1(E.tr) : CycleSets(Rec[E.pi].S)[x.ty] = {c \in Range1(x.cyc) : c # << >>}
 P_C16_optfix == (E.ev = "optrerun" /\ E.pi > 0) =>
    /\ E.ok
    /\ LET S == Rec[E.pi].S
